@@ -21,6 +21,11 @@ pub open spec fn phys_after(p: Set<KeyCode>, op: Op) -> Set<KeyCode> {
   }
 }
 
+// C02(a), statement level: x is an output key of a mapping of the layout all of whose trigger keys are physically held
+pub open spec fn justified_by_layout(l: Layout, phys: Set<KeyCode>, x: KeyCode) -> bool {
+  exists|i: int| 0 <= i < l.mappings@.len() && (#[trigger] l.mappings@[i]).to@.contains(x) && (forall|f: KeyCode| l.mappings@[i].from@.contains(f) ==> phys.contains(f))
+}
+
 pub proof fn lemma_empty_seq_of_subset(s: Seq<KeyCode>, p: Set<KeyCode>)
   requires forall|x: KeyCode| #[trigger] s.contains(x) ==> p.contains(x), p == Set::<KeyCode>::empty()
   ensures s.len() == 0
@@ -41,6 +46,7 @@ pub fn universal_client(layout: &Layout, ops: &Vec<Op>)
     invariant
       i <= ops.len(),
       m.inv(),
+      m.grouped_from(*layout),
       //@ C19 | over histories: the concatenated output stream never presses a key that is down nor releases a key that is up, and folds to the mapper's own record
       apply(Set::<KeyCode>::empty(), out) == Some(m.held_view()),
       //@ C01 C02 | history fact: what the mapper considers pressed is physically pressed
@@ -75,6 +81,17 @@ pub fn universal_client(layout: &Layout, ops: &Vec<Op>)
       },
     }
     proof {
+      //@ C02 | (a) THEOREM C02(a) at this prefix: every key held on the virtual keyboard is physically held or is an output key of a layout mapping all of whose trigger keys are physically held
+      assert forall|x: KeyCode| m.held_view().contains(x) implies phys.contains(x) || justified_by_layout(*layout, phys, x) by {
+        m.lemma_justified(*layout, x);
+        if !m.pressed_view().contains(x) {
+          let i = choose|i: int| 0 <= i < layout.mappings@.len() && (#[trigger] layout.mappings@[i]).to@.contains(x) && (forall|f: KeyCode| layout.mappings@[i].from@.contains(f) ==> m.pressed_view().contains(f));
+          assert forall|f: KeyCode| layout.mappings@[i].from@.contains(f) implies phys.contains(f) by { assert(m.pressed_view().contains(f)); }
+        }
+      }
+      //@ C02 | (d) THEOREM C02(d) at this prefix: a trigger key of a mapping in effect is held on the virtual keyboard only if a mapping in effect outputs it
+      assert forall|x: KeyCode, j: int| #![trigger m.held_view().contains(x), m.active_view()[j]] m.held_view().contains(x) && 0 <= j < m.active_view().len() && m.active_view()[j].from.contains(x)
+        implies exists|j2: int| 0 <= j2 < m.active_view().len() && (#[trigger] m.active_view()[j2]).to.contains(x) by { m.lemma_consumed(x, j); }
       //@ C01 | THEOREM C01 at this prefix: every physical key released ==> every virtual key released (fold of the whole output stream from the empty device is empty)
       assert(phys == Set::<KeyCode>::empty() ==> apply(Set::<KeyCode>::empty(), out) == Some(Set::<KeyCode>::empty())) by {
         if phys == Set::<KeyCode>::empty() { lemma_empty_seq_of_subset(m.pressed_view(), phys); }
